@@ -58,6 +58,15 @@ def gen_decl(rng, w, recs, parent, semi_in_paren=False, allow_nosemi=False, last
     return d
 
 
+def rand_comment(rng):
+    "any body whose first closing pair is the comment's own: runs of asterisks and slashes, braces, semicolons, quotes"
+    while True:
+        body = ''.join(rng.choice(['*', '*', '/', ' ', 'a', '{', '}', ';', ':', '\n', '"', "'", '**', '\\']) for _ in range(rng.randint(0, 8)))
+        full = '/*' + body + '*/'
+        if full.find('*/', 2) == len(full) - 2:
+            return full
+
+
 def gen_rule(rng, depth, w, recs, parent, max_depth=3, max_items=3, p_sip=0.0, allow_nosemi=False):
     sel = rng.choice(SELECTORS)
     start, send = w.add(sel)
@@ -72,7 +81,7 @@ def gen_rule(rng, depth, w, recs, parent, max_depth=3, max_items=3, p_sip=0.0, a
     for i in range(n):
         w.add(rng.choice(WS))
         if rng.random() < 0.2:
-            w.add(rng.choice(COMMENTS))
+            w.add(rng.choice(COMMENTS) if rng.random() < 0.5 else rand_comment(rng))
             w.add(rng.choice([' ', '\n']))
         if depth < max_depth and rng.random() < (0.35 if max_depth <= 4 else 0.7):
             gen_rule(rng, depth + 1, w, recs, rec, max_depth, max_items, p_sip, allow_nosemi)
